@@ -396,9 +396,9 @@ func reach(v reflect.Value, into map[uintptr]bool) {
 }
 
 // Pending / RunPending / DropPending: goroutines started by the code under
-// test really run natively, so these are no-ops here.
+// test really run natively; RunPending gives them a moment to do so.
 func Pending() int  { return 0 }
-func RunPending()   {}
+func RunPending()   { time.Sleep(50 * time.Millisecond) }
 func DropPending()  {}
 
 // DuringSleep: f runs while the code under test is in its k-th time.Sleep (each of the given
